@@ -73,16 +73,19 @@ class TriggerContext:
 
     def __exit__(self, exception_type, exception_value, exception_traceback):
         """Complete the 'with' statement, and close this context."""
-        for result in self.__results:
-            try:
-                new_callback = result.process(self)
-                if new_callback is not None:
-                    self.callbacks.append(new_callback)
-            except Exception:
-                deep.logging.exception("failed to process result {}", result)
-        # the results refer back to this context (and so to the application's frame and every value we collected);
-        # drop them, so all of that is released when we return and not whenever the garbage collector runs next
-        self.__results = []
+        try:
+            for result in self.__results:
+                try:
+                    new_callback = result.process(self)
+                    if new_callback is not None:
+                        self.callbacks.append(new_callback)
+                except Exception:
+                    deep.logging.exception("failed to process result {}", result)
+        finally:
+            # the results refer back to this context (and so to the application's frame and every value we
+            # collected); drop them, so all of that is released when we return and not whenever the garbage
+            # collector runs next
+            self.__results = []
 
     @property
     def id(self):
